@@ -227,6 +227,7 @@ type Oblig struct {
 	Known    bool
 	SMTBytes int
 	Cover    bool // cover query: expected SAT
+	File     string
 }
 
 func NewScript() *Script {
@@ -289,7 +290,7 @@ const prelude = `(set-option :produce-models true)
 (set-logic ALL)
 (declare-sort Ref 0)
 (declare-sort Val 0)
-(declare-datatypes ((Slice 0)) (((mk-slice (s-base Ref) (s-off Int) (s-len Int) (s-cap Int)))))
+(declare-datatypes ((Slice 0)) (((mk-slice (s-ptr Ref) (s-len Int) (s-cap Int)))))
 (declare-fun nilref () Ref)
 (declare-fun nilval () Val)
 (declare-fun typeOf (Val) Int)
@@ -298,14 +299,15 @@ const prelude = `(set-option :produce-models true)
 (declare-fun birth (Ref) Int)
 (declare-fun ftag (Ref) Int)
 (declare-fun fbase (Ref) Ref)
-(declare-fun fidx (Ref) Int)
+(declare-fun eidx (Ref) Int)
+(declare-fun ebase (Ref) Ref)
 (declare-fun elem (Ref Int) Ref)
 (declare-fun bstr (Slice) String)
 (assert (= (typeOf nilval) 0))
 (assert (not (vnn nilval)))
 (assert (= (root nilref) nilref))
 (assert (= (birth nilref) (- 1)))
-(define-fun nilslice () Slice (mk-slice nilref 0 0 0))
+(define-fun nilslice () Slice (mk-slice nilref 0 0))
 `
 
 // Header renders prelude + declarations + global axioms.
